@@ -31,8 +31,8 @@
 (*  AppendAfterTorn reopening a file with a torn tail appends behind the   *)
 (*                  torn bytes                                       (C02) *)
 (*  TornCreate      a file shorter than header+name is never repaired:     *)
-(*                  the writer cannot open it / keeps appending garbage    *)
-(*                                                                   (C02) *)
+(*                  the writer cannot open it / keeps appending garbage;   *)
+(*                  the chronicler then drops every write silently   (C02) *)
 (*  PartialBlockHides   after a failed block write the torn bytes stay and *)
 (*                  the next block is appended behind them           (C25) *)
 (*  BufferDroppedOnError  the entries of a block whose write failed are    *)
@@ -205,7 +205,7 @@ Close == /\ Quiescent /\ w.open /\ ~w.wedged
 \* as built (chronicler.Write): the writer could not be opened, the error is logged and the records of
 \* the batch are forgotten although the caller was told nothing
 PutDropped(e) ==
-  /\ Quiescent /\ ~w.open /\ "WriteErrorsSkipped" \in Dev
+  /\ Quiescent /\ ~w.open /\ ("WriteErrorsSkipped" \in Dev \/ "TornCreate" \in Dev)
   /\ ref' = ApplyE(ref, e)
   /\ call' = [name |-> "put", res |-> "err", pre |-> ref, faulted |-> call.faulted, told |-> FALSE]
   /\ cnt' = [cnt EXCEPT !.writes = @ + 1]
